@@ -265,6 +265,14 @@ def ean13SymbolRead (T : List Nat) (left : List (Nat × Bool)) (right : List Nat
     | .ok () => .ok s
     | .error e => .error e
 
+/-- symbol-level UPC-A read: the EAN-13 reading with its leading '0' removed (`maybeReturnResult`),
+    FormatException when the EAN-13 number does not start with '0' -/
+def upcaSymbolRead (T : List Nat) (left : List (Nat × Bool)) (right : List Nat) : Res (List Nat) :=
+  match ean13SymbolRead T left right with
+  | .error e => .error e
+  | .ok [] => .error (.panic "index out of range")
+  | .ok (f :: rest) => if f = 48 then .ok rest else .error .format
+
 /-- symbol-level EAN-8 read -/
 def ean8SymbolRead (ds : List Nat) : Res (List Nat) :=
   let s := ds.map (48 + ·)
